@@ -18,6 +18,10 @@ class ExpectedRaise(Exception):
     pass
 
 
+class PathEnd(BaseException):
+    """the path ends after an obligation that fails for all of its values (violations are kept)"""
+
+
 def _frac(v):
     """z3 numeral -> Fraction / int / bool"""
     if z3.is_int_value(v):
@@ -190,7 +194,8 @@ class Sx:
                 c.solver.add(cond.z)
                 r2 = c._check()
                 if r2 != z3.sat:
-                    raise Infeasible()
+                    # violated for every value on this path: nothing left to explore here
+                    raise PathEnd()
                 c.model = c.solver.model()
                 return False
             if r == z3.unknown:
@@ -340,7 +345,7 @@ def run_once(harness, prefix, mode, model, timeout_ms, tier, cache=None):
     except Unknown as e:
         status = 'unknown'
         err = str(e)
-    except ExpectedRaise as e:
+    except (ExpectedRaise, PathEnd) as e:
         status = 'ok'
     except Unmodelled as e:
         status = 'unmodelled'
